@@ -812,7 +812,7 @@ func scenarioPinTime() int {
 			break
 		}
 		var evs []ptEvent
-		plans := []string{"early+late", "early+late", "ringing-then-expires", "bye", "bye", "bye", "notify-terminated", "notify-active", "notify-reason", "expires-larger", "expires-smaller", "early+late", "subscribe-refresh", "subscribe-refresh"}
+		plans := []string{"early+late", "early+late", "ringing-then-expires", "bye", "bye", "bye", "notify-terminated", "notify-active", "notify-reason", "expires-larger", "expires-smaller", "early+late", "subscribe-refresh", "subscribe-refresh", "expires-much-larger", "expires-much-larger"}
 		for i := 0; i < perBatch; i++ {
 			d := &ptDialog{}
 			d.n, d.svc, d.backend, d.kind = i, g.R.Intn(len(w.Svcs)), -1, "invite"
@@ -825,13 +825,17 @@ func scenarioPinTime() int {
 				d.expires = 4 + g.R.Intn(2)
 				d.life = time.Duration(d.expires) * time.Second
 				d.ringFirst = plan == "ringing-then-expires"
+			case "expires-much-larger":
+				// two probes more than one dialog timeout apart, both well inside the promised lifetime
+				d.expires = 7
+				d.life = 7 * time.Second
 			case "expires-smaller":
 				d.expires = 1
 			}
 			if plan == "subscribe-refresh" {
 				// a subscription whose answers promise nothing: lifetime = dialog timeout, renewed by
 				// the answer to the refresh
-				d.kind, d.subExpires, d.expires, d.life = "subscribe", "-", 0, timeout
+				d.kind, d.subExpires, d.expires, d.life = "subscribe", []string{"-", "0"}[g.R.Intn(2)], 0, timeout
 			}
 			if strings.HasPrefix(plan, "notify") {
 				d.kind = "subscribe"
@@ -859,6 +863,9 @@ func scenarioPinTime() int {
 			case "bye":
 				evs = append(evs, ptEvent{at: t0 + frac(10, 40), d: d, what: "bye", arg: fmt.Sprint(nextByeStatus())})
 				evs = append(evs, ptEvent{at: t0 + frac(45, 60), d: d, what: "probe", arg: plan})
+			case "expires-much-larger":
+				evs = append(evs, ptEvent{at: t0 + frac(8, 14), d: d, what: "probe", arg: plan + "/first"})
+				evs = append(evs, ptEvent{at: t0 + frac(50, 57), d: d, what: "probe", arg: plan + "/second, more than a timeout later"})
 			case "subscribe-refresh":
 				rf := frac(50, 60)
 				evs = append(evs, ptEvent{at: t0 + rf, d: d, what: "refresh"})
@@ -983,6 +990,42 @@ func (w *dialogWorld) ptExec(e ptEvent) {
 		}
 		var status int
 		fmt.Sscanf(e.arg, "%d", &status)
+		if be[0].Proto == "udp" {
+			w.stats["byes_to_udp_backends"]++
+		}
+		if be[0].Proto == "udp" && w.stats["byes_to_udp_backends"]%2 == 1 {
+			// the backend answers the BYE from another socket than the one it listens on (a worker
+			// process, a fresh ephemeral port): it is still the answer of that backend
+			sv := w.Svcs[d.svc]
+			var beIP string
+			for _, x := range sv.BeUDP {
+				if x.Name == be[0].Ep {
+					beIP = x.IP()
+				}
+			}
+			alt, err := w.Net.UDP(fmt.Sprintf("%s/alt%s", be[0].Ep, id), beIP+":0")
+			if err != nil {
+				d.ended = true
+				return
+			}
+			rid := id + "x" + fmt.Sprint(status)
+			resp := &sip.Msg{Start: fmt.Sprintf("SIP/2.0 %d Answer", status)}
+			for _, h := range be[0].Msg.Headers {
+				switch sip.Canon(h.Name) {
+				case "via", "from", "to", "call-id", "cseq":
+					resp.Headers = append(resp.Headers, h)
+				}
+			}
+			resp.Headers = append(resp.Headers, sip.Header{Name: "X-Vf", Value: rid}, sip.Header{Name: "Content-Length", Value: "0"})
+			alt.Send(fmt.Sprintf("%s:%d", sv.IP, sv.UDP), resp.Bytes(), rid)
+			if _, ok := w.Net.WaitCase(rid, func(x []*wire.Obs) bool { return len(x) >= 1 }, w.BarrierWait); ok {
+				d.dissolve = "bye"
+				w.stats["byes_answered_from_another_socket"]++
+			} else {
+				d.ended = true
+			}
+			return
+		}
 		if w.respondFromBackend(d.svc, be[0], id, status, "") {
 			d.dissolve = "bye"
 		} else {
